@@ -14,11 +14,13 @@ CONSTANTS
  PublishOnlyLatest = FALSE
  HoldVfsAcrossApply = FALSE
  SnapshotInTask = FALSE
+ CancelledAnsweredOk = FALSE
+ AnsFree = FALSE
  PollWhileWaiting = FALSE
  PreFixF9 = FALSE
  ThirdPartyFatal = FALSE
  Gen = "none"
  ScriptLen = 0
 SPECIFICATION Spec
-INVARIANTS TypeOK NoDeadlock AtMostOneResponse AllAnswered IssuedVersion TextConvergence LockDiscipline Alive
+INVARIANTS TypeOK NoDeadlock AtMostOneResponse AllAnswered IssuedVersion AnswerContent TextConvergence LockDiscipline Alive
 CHECK_DEADLOCK FALSE
